@@ -123,13 +123,13 @@ pub fn spec_for(property: &str) -> Option<CheckSpec> {
         "C10" => CheckSpec {
             property: "C10".into(),
             level: "exploration",
-            profiles: vec![p("seq-filter", 6), p("seq-maint", 2), p("seq", 2)],
+            profiles: vec![p("seq-filter", 6), p("seq-maint", 2), p("seq", 2), p("seq-filter+readfault", 2)],
             thorough_extra: vec![],
             quick_runs: 8_000,
             thorough_runs: 400_000,
             quick_budget_s: 60,
             thorough_budget_s: 600,
-            nontrivial_rule: "sequential histories with swarm bloom configs (bit counts not multiple of 64, 0..4 hashers, zero sizes, no bloom), group sizes 2..9, close/restore/re-close, delete-in-closed, offload_buffer(needed, level 0..3), restarts reading filters back from index files. Oracle after every step, for every key with a stored record: check_filters != Some(false), check_filter != NotContains, get_filter().contains_fast != NotContains; for 64 probe keys check_filter is identical immediately before and after an offload (on-file probe == in-memory probe) at a quiescent point; a hidden record also fails the C01 read comparison. Non-trivial = bloom configured, >= 3 data operations and at least one index dumped; distinct = distinct I/O event signature. The bare Bloom/RangeFilter API on key sets is a pure function and is only covered through the storage",
+            nontrivial_rule: "profile seq-filter+readfault injects EIO at the n-th read of an index file (bloom bytes probed from the file after an offload, on-disk index lookups): a query hit by the error may return the error, never an absent answer for a stored key. Otherwise: sequential histories with swarm bloom configs (bit counts not multiple of 64, 0..4 hashers, zero sizes, no bloom), group sizes 2..9, close/restore/re-close, delete-in-closed, offload_buffer(needed, level 0..3), restarts reading filters back from index files. Oracle after every step, for every key with a stored record: check_filters != Some(false), check_filter != NotContains, get_filter().contains_fast != NotContains; for 64 probe keys check_filter is identical immediately before and after an offload (on-file probe == in-memory probe) at a quiescent point; a hidden record also fails the C01 read comparison. Non-trivial = bloom configured, >= 3 data operations and at least one index dumped; distinct = distinct I/O event signature. The bare Bloom/RangeFilter API on key sets is a pure function and is only covered through the storage",
             nontrivial: nt_filter,
             assumptions: a,
             expected_probes: vec!["offload_freed", "index_marked_complete"],
